@@ -29,7 +29,7 @@ use fastrace::prelude::*;
 use fastrace::verif;
 use fh_core::*;
 
-const OP_TIMEOUT: Duration = Duration::from_secs(30);
+const OP_TIMEOUT: Duration = Duration::from_secs(8);
 /// true in the `fh-off` crate, which compiles this file against fastrace without `enable`
 const OFF: bool = cfg!(feature = "off");
 
